@@ -40,7 +40,7 @@ M = [
  # C05
  ("phase_inh_no_filter", "src/pwl/impl_infeasible_elim.rs", "                .filter(|point| hyperplane.contains(point))\n", "", ["C05", "C06", "C11"]),
  ("remove_axes_keeps_states", "src/pwl/afftree.rs", "            node.state = NodeState::Indeterminate;\n", "", ["C05"]),
- ("mirror_points_no_check", "src/pwl/impl_infeasible_elim.rs", "                .filter(|(_, dist)| dist.iter().all(|val| *val >= 0.))", "                .filter(|(_, dist)| count > 0 || dist.iter().all(|val| *val >= 0.))", ["C05"]),
+ ("mirror_points_no_check", "src/pwl/impl_infeasible_elim.rs", "                .filter(|(point, dist)| dist.iter().all(|val| *val >= 0.) && poly.contains(point))", "                .filter(|(point, dist)| count > 0 || (dist.iter().all(|val| *val >= 0.) && poly.contains(point)))", ["C05"]),
  # C06
  ("skip_forwarding", "src/pwl/impl_infeasible_elim.rs", "            if n_remaining == 0 {\n                self.forward_if_redundant(parent_idx);\n            }", "", ["C06"]),
  ("elim_skips_deep_nodes", "src/pwl/impl_infeasible_elim.rs", "            if node_idx == self.tree.get_root_idx() {\n                continue;\n            }", "            if node_idx == self.tree.get_root_idx() || depth > 3 {\n                continue;\n            }", ["C06"]),
@@ -58,7 +58,7 @@ M = [
  ("find_terminal_label_seq", "src/pwl/afftree.rs", "            label_seq.push(label);\n            let successor_idx = current_node.children[label]?;", "            let successor_idx = current_node.children[label]?;\n            label_seq.push(label);", []),
  # C10
  ("lp_infeasible_as_unbounded", "src/linalg/polyhedron.rs", "Err(minilp::Error::Infeasible) => PolytopeStatus::Infeasible,", "Err(minilp::Error::Infeasible) => PolytopeStatus::Unbounded,", ["C10", "C06"]),
- ("lp_le_to_ge", "src/linalg/polyhedron.rs", "pb.add_constraint(constraint.as_slice(), ComparisonOp::Le, *bias);", "pb.add_constraint(constraint.as_slice(), ComparisonOp::Ge, *bias);", ["C10"]),
+ ("lp_le_to_ge", "src/linalg/polyhedron.rs", "pb.add_constraint(constraint.as_slice(), ComparisonOp::Le, *bias * scale);", "pb.add_constraint(constraint.as_slice(), ComparisonOp::Ge, *bias * scale);", ["C10"]),
  ("lp_drop_nonfinite_check", "src/linalg/polyhedron.rs", "if wit.iter().any(|x| x.is_infinite() || x.is_nan()) {", "if false {", ["C10"]),
  ("chebyshev_norm_missing_sqrt", "src/linalg/affine.rs", "norm[[idx, 0]] = row.map(|x: &A| x.powi(2)).sum().sqrt();", "norm[[idx, 0]] = row.map(|x: &A| x.powi(2)).sum();", ["C10"]),
  # C11
